@@ -26,7 +26,7 @@ class BH(progx.OpHooks):
     def call(self, p, args, e):
         segs = p.split("::")
         if segs[-2:] == ["Instruction", "new"] and len(args) == 4:
-            v = ("struct", "Instruction", {"class": ("struct", "Instruction", {"opcode": args[0], "opname": ("sym", "OPNAME")}), "result_type": args[1], "result_id": args[2], "operands": args[3]})
+            v = ("struct", "Instruction", {"class": ("struct", "Instruction", {"opcode": args[0], "opname": ("sym", "OPNAME"), "capabilities": ("list", []), "extensions": ("list", []), "operands": ("list", [("sym", "LOGICAL_OPERAND")])}), "result_type": args[1], "result_id": args[2], "operands": args[3]})
             self.insts.append(v)
             return v
         return progx.OpHooks.call(self, p, args, e)
@@ -70,7 +70,7 @@ def param_value(name, ty, variant):
     if t.startswith("Option<"):
         return ("some", ("param", name)) if variant == "some" else NONE
     if t.lstrip("&").replace("mut", "").endswith("Instruction"):
-        return ("struct", "Instruction", {"class": ("struct", "Instruction", {"opcode": ("enum", "Op::TypeVoid", []), "opname": ("str", "TypeVoid")}),
+        return ("struct", "Instruction", {"class": ("struct", "Instruction", {"opcode": ("enum", "Op::TypeVoid", []), "opname": ("str", "TypeVoid"), "capabilities": ("list", []), "extensions": ("list", []), "operands": ("list", [("sym", "LOGICAL_OPERAND")])}),
                                           "result_type": NONE, "result_id": NONE, "operands": ("list", []), "name": "ARGUMENT:" + name})
     if t == "InsertPoint" or t.endswith("::InsertPoint"):
         return ("enum", "InsertPoint::End", [])
@@ -339,7 +339,7 @@ def dedup_summary(ctx, f, base):
     def go(explicit, twin):
         b = fresh_builder(ctx, "none")
         tgv = b[2]["module"][2]["types_global_values"]
-        other = ("struct", "Instruction", {"class": ("struct", "Instruction", {"opcode": ("enum", "Op::TypeVoid", []), "opname": ("str", "TypeVoid")}),
+        other = ("struct", "Instruction", {"class": ("struct", "Instruction", {"opcode": ("enum", "Op::TypeVoid", []), "opname": ("str", "TypeVoid"), "capabilities": ("list", []), "extensions": ("list", []), "operands": ("list", [("sym", "LOGICAL_OPERAND")])}),
                                            "result_type": NONE, "result_id": ("some", 555), "operands": ("list", [("enum", "Operand::IdRef", [("elem", "UNRELATED", 0)])])})
         tgv[1].append(other)
         if twin is not None:
@@ -390,7 +390,7 @@ def dedup_summary(ctx, f, base):
 
 
 def _ti(opcode, operands, rid=None, rtype=None):
-    return ("struct", "Instruction", {"class": ("struct", "Instruction", {"opcode": ("enum", "Op::" + opcode, []), "opname": ("str", opcode)}),
+    return ("struct", "Instruction", {"class": ("struct", "Instruction", {"opcode": ("enum", "Op::" + opcode, []), "opname": ("str", opcode), "capabilities": ("list", []), "extensions": ("list", []), "operands": ("list", [("sym", "LOGICAL_OPERAND")])}),
                                       "result_type": NONE if rtype is None else ("some", rtype), "result_id": NONE if rid is None else ("some", rid),
                                       "operands": ("list", list(operands))})
 
